@@ -352,6 +352,13 @@ def atom_using(ch, env, var, T, depth):
             return ('un', 'not', v)
         other = typed_term(ch, env, 'B', max(depth - 1, 0))
         return binop(ch.pick(['=', '!=', 'implies', 'or']), v, other)
+    if T in ('S', 'N') and ch.int(0, 7) == 0:
+        # the variable occurs only INSIDE a set (or, for numbers, a range) literal
+        other = typed_term(ch, env, T, max(depth - 1, 0))
+        if T == 'N' and ch.bool():
+            lo = _lit(ch, 'N')
+            return binop('in', other, ('range', lo, v, False, ch.bool()) if ch.bool() else ('range', v, _lit(ch, 'N'), ch.bool(), False))
+        return binop('in', other, ('set', (v, _lit(ch, T)) if ch.bool() else (_lit(ch, T), v)))
     if T == 'S':
         k = ch.int(0, 2)
         other = typed_term(ch, env, 'S', max(depth - 1, 0))
